@@ -5,8 +5,9 @@
 -/
 import SgeProofs.Properties.C01Combined
 import SgeProofs.Properties.C13Core
+import SgeProofs.Lemmas.CombinedHooksTotalInv
 namespace Sge.Combined
-open Sge Sge.Core
+open Sge Sge.Core Sge.Genesis
 
 -- ---------------------------------------------------------------------------------------------
 -- C13 over combined histories
@@ -29,5 +30,97 @@ theorem c13_combined_supply_constant (p : Params) (bal : List (Nat × Int)) (h t
   obtain ⟨cops, _, e⟩ := cmb_simulation_run (init p bal h t we de) ops (cmb_init_ownInv p bal h t we de) hwf
   rw [e]
   exact c13_core_supply_constant _ cops
+
+-- ---------------------------------------------------------------------------------------------
+-- C11.1 over combined histories: the settlement hooks never fail
+
+theorem cmb2_init_htinv (p : Params) (bal : List (Nat × Int)) (h t : Nat) (we de : Bool)
+    (h0 : getBal bal ACC_POOL = 0 ∧ getBal bal ACC_BETFEE = 0 ∧ getBal bal ACC_HOUSEFEE = 0)
+    (hb : ∀ x, SUB_BASE ≤ x → 0 ≤ getBal bal x) : cmb2_HTInv (init p bal h t we de) := by
+  refine ⟨cmb_init_linv p bal h t we de h0 hb,
+    ⟨settleInv_init p bal h t h0, obInv_init p bal h t, retInv_init p bal h t⟩, ?_, ?_, ?_⟩
+  · intro b hb; cases hb
+  · intro a _ L _
+    have hz : sumBy (cmb2_val (init p bal h t we de).core a) L = 0 := by
+      apply sumBy_zero
+      intro k _
+      obtain ⟨u, i⟩ := k
+      exact cmb2_val_noBook rfl
+    rw [hz]
+    exact Int.le_refl _
+  · intro a r e; simp [init, aget] at e
+
+theorem cmb2_reach_htinv (p : Params) (bal : List (Nat × Int)) (h t : Nat) (we de : Bool) (ops : List Op)
+    (h0 : getBal bal ACC_POOL = 0 ∧ getBal bal ACC_BETFEE = 0 ∧ getBal bal ACC_HOUSEFEE = 0)
+    (hb : ∀ x, SUB_BASE ≤ x → 0 ≤ getBal bal x) (hwf : ∀ op ∈ ops, op.wfU) :
+    cmb2_HTInv (run (init p bal h t we de) ops) :=
+  cmb2_run_htinv ops _ (cmb2_init_htinv p bal h t we de h0 hb) hwf
+
+/-- C11 (combined), THE INDUCTIVE INVARIANT behind "the hooks never fail". `cmb2_val c a (uid, idx)` is what the
+    UNPAID participation `idx` of order book `uid` holds of address `a`: its liquidity (deposit − fee − what was withdrawn
+    since) plus its house fee, and 0 if there is no such record, it is paid, or it belongs to another address.
+    In every reachable state, for every subaccount address `a` with account summary `r` and every duplicate-free list
+    `L` of participation keys, these values add up to at most `r.sum.spent`; and `Available()` is never negative.
+    It is an inequality and not an equation: when a market is settled with a declared result and the participation
+    received stake, the fee goes to the market creator and NO hook is called for it — `Spent` keeps that fee for ever
+    (it is never booked as lost either). Every subaccount house deposit raises both sides by the deposit, every
+    withdrawal lowers both by the amount paid out, a settlement lowers the left side by liquidity + fee and `Spent`
+    by what `AfterHouseWin/Loss/Refund/FeeRefund` un-spend. -/
+theorem c11_spent_covers_combined (p : Params) (bal : List (Nat × Int)) (h t : Nat) (we de : Bool) (ops : List Op)
+    (h0 : getBal bal ACC_POOL = 0 ∧ getBal bal ACC_BETFEE = 0 ∧ getBal bal ACC_HOUSEFEE = 0)
+    (hb : ∀ x, SUB_BASE ≤ x → 0 ≤ getBal bal x) (hwf : ∀ op ∈ ops, op.wfU) :
+    let s := run (init p bal h t we de) ops
+    ∀ a r, aget s.subs a = some r →
+      (∀ L : List (Nat × Nat), L.Nodup → sumBy (cmb2_val s.core a) L ≤ r.sum.spent) ∧ 0 ≤ r.sum.available := by
+  intro s a r har
+  have hI := cmb2_reach_htinv p bal h t we de ops h0 hb hwf
+  refine ⟨fun L hL => ?_, hI.avail a r har⟩
+  have := hI.spent a (hI.linv.inRange.of har) L hL
+  unfold cmb2_spentOf at this
+  rw [har] at this
+  exact this
+
+/-- C11 (combined), HOOKS TOTAL. From a chain without subaccounts whose custody accounts are empty, after ANY history of
+    core operations, subaccount creation / top-up / unlocked-balance withdrawal, subaccount wagers, subaccount house
+    deposits and (partial or full) withdrawals on real markets and settling end-blocks (signers, creators, owners and
+    the depositors of direct house deposits are key-holding accounts, `Op.wfU`): whenever the core end-block
+    (x/bet settlement, then x/orderbook settlement with all its payments) succeeds, every hook call that
+    `settleParticipation` makes into x/subaccount succeeds as well — `Unspend(liquidity)` and `Unspend(fee)` stay within
+    `Spent`, the amounts are non-negative, the owner of the subaccount exists and the `AfterHouseWin` transfer of the
+    profit is covered by the balance. The combined end-block therefore succeeds: x/subaccount adds no way to halt the
+    chain. -/
+theorem c11_hooks_total_combined (p : Params) (bal : List (Nat × Int)) (h t : Nat) (we de : Bool) (ops : List Op)
+    (h0 : getBal bal ACC_POOL = 0 ∧ getBal bal ACC_BETFEE = 0 ∧ getBal bal ACC_HOUSEFEE = 0)
+    (hb : ∀ x, SUB_BASE ≤ x → 0 ≤ getBal bal x) (hwf : ∀ op ∈ ops, op.wfU) :
+    let s := run (init p bal h t we de) ops
+    ∀ c', Core.endBlockO s.core = some c' → ∃ s', endBlockO s = some s' ∧ applyHooks { s with core := c' } (endBlockHooks s.core c') = some s' := by
+  intro s c' hc
+  have hI := cmb2_reach_htinv p bal h t we de ops h0 hb hwf
+  obtain ⟨s', e, _, _⟩ := cmb2_endBlock_total hI.linv hI.spent hI.avail hI.ret hI.parts hc
+  refine ⟨s', e, ?_⟩
+  unfold endBlockO at e
+  rw [hc] at e
+  exact e
+
+/-- the same, as a statement about the result codes: in every reachable state the combined end-block halts only if the
+    core end-block halts -/
+theorem c11_endBlock_halts_only_with_core (p : Params) (bal : List (Nat × Int)) (h t : Nat) (we de : Bool) (ops : List Op)
+    (h0 : getBal bal ACC_POOL = 0 ∧ getBal bal ACC_BETFEE = 0 ∧ getBal bal ACC_HOUSEFEE = 0)
+    (hb : ∀ x, SUB_BASE ≤ x → 0 ≤ getBal bal x) (hwf : ∀ op ∈ ops, op.wfU) :
+    let s := run (init p bal h t we de) ops
+    (step s (.core .endBlock)).2 = .halt → (Core.step s.core .endBlock).2 = .halt := by
+  intro s hh
+  show (Core.endBlock s.core).2 = .halt
+  unfold Core.endBlock
+  cases hc : Core.endBlockO s.core with
+  | none => rfl
+  | some c' =>
+    exfalso
+    obtain ⟨s', e, _⟩ := c11_hooks_total_combined p bal h t we de ops h0 hb hwf c' hc
+    have : (step s (.core .endBlock)).2 = (endBlock s).2 := rfl
+    rw [this] at hh
+    unfold endBlock at hh
+    rw [e] at hh
+    cases hh
 
 end Sge.Combined
